@@ -266,6 +266,8 @@ mod sx {
         "gh.com##.own",
         "||gh.com^$csp=d3",
         "||gh.com/p^$csp=d4",
+        "||r.com^$redirect=a",
+        "||r.com/q^*$redirect-rule=b:5",
     ];
 
     #[derive(Clone, Copy, Debug, PartialEq)]
@@ -287,12 +289,18 @@ mod sx {
         // blocked (foo*bar), excepted (@@baz^qux) and rewritten (utm) at once: the longest path
         // through check_parameterised, every lookup of it under the lock
         "https://x.com/baz/qux?utm=1&k=foo1bar",
+        // redirected requests (one of them also rewritten): the redirect section sits between the
+        // lookups and the removeparam pass of check_parameterised
+        "https://r.com/x",
+        "https://r.com/q/y?utm=1",
     ];
 
     pub fn engine() -> Engine {
         let mut e = Engine::from_rules_parametrised(RULES, Default::default(), true, false);
         e.use_tags(&["t"]);
-        e.use_resources(vec![vh::net::resource("s1.js", &["s1"], adblock::resources::ResourceType::Mime(adblock::resources::MimeType::ApplicationJavascript), "function s1(a){}", &[], 0)]);
+        let mut res = vh::net::std_resources();
+        res.push(vh::net::resource("s1.js", &["s1"], adblock::resources::ResourceType::Mime(adblock::resources::MimeType::ApplicationJavascript), "function s1(a){}", &[], 0));
+        e.use_resources(res);
         // aggressive policy: every critical section runs the cleanup, discards and recompiles
         e.set_regex_discard_policy(RegexManagerDiscardPolicy { cleanup_interval: Duration::from_nanos(1), discard_unused_time: Duration::ZERO });
         e
@@ -335,6 +343,7 @@ mod sx {
             // the same page twice in one thread, a page with the opposite generichide verdict in the other
             ("2x2-cosmetic", vec![vec![Cosmetic, Cosmetic], vec![CosmeticGh, Cosmetic]]),
             ("2x2-csp", vec![vec![Csp, Csp], vec![CspGh, Csp]]),
+            ("2x2-redirect", vec![vec![Check(9), Check(10)], vec![Check(10), Check(9)]]),
         ]
     }
 
@@ -569,7 +578,7 @@ mod sx {
     /// wrong answer; silence proves nothing.
     pub fn stress(threads: usize, millis: u64) -> (u64, Option<String>) {
         use std::sync::atomic::{AtomicBool, AtomicU64, Ordering};
-        let all: Vec<Q> = vec![Q::Check(0), Q::Check(2), Q::Check(6), Q::Check(8), Q::Csp, Q::CspGh, Q::CspGhP, Q::Cosmetic, Q::CosmeticGh, Q::Hidden];
+        let all: Vec<Q> = vec![Q::Check(0), Q::Check(2), Q::Check(6), Q::Check(8), Q::Check(9), Q::Check(10), Q::Csp, Q::CspGh, Q::CspGhP, Q::Cosmetic, Q::CosmeticGh, Q::Hidden];
         // default discard policy: the queries are fast, which is what makes overlaps likely
         let mut e = Engine::from_rules_parametrised(RULES, Default::default(), true, false);
         e.use_tags(&["t"]);
@@ -584,7 +593,7 @@ mod sx {
                     let mut k = t * 3;
                     while !stop.load(Ordering::Relaxed) {
                         // csp queries are taken twice as often (two pages alternate quickly)
-                        let i = if k % 2 == 0 { 4 + (k / 2) % 3 } else { k % all.len() };
+                        let i = if k % 2 == 0 { 6 + (k / 2) % 3 } else { k % all.len() };
                         k += 1;
                         let got = vh::util::catch(|| ask(e, all[i])).unwrap_or_else(|loc| format!("panic@{}", loc));
                         rounds.fetch_add(1, Ordering::Relaxed);
@@ -658,7 +667,7 @@ fn sync_main(tier: vh::Tier) -> i32 {
         let max_bound = match (tier, *name) {
             (vh::Tier::Quick, "3x2") => 1, // 3x2 with 2 preemptions is 10 660 schedules (~40 s): thorough only
             (vh::Tier::Quick, _) => 2,
-            (vh::Tier::Thorough, "2x2") | (vh::Tier::Thorough, "2x2-mixed") | (vh::Tier::Thorough, "2x2-rewrite") | (vh::Tier::Thorough, "2x2-excepted") | (vh::Tier::Thorough, "2x2-cosmetic") | (vh::Tier::Thorough, "2x2-csp") => 4,
+            (vh::Tier::Thorough, "2x2") | (vh::Tier::Thorough, "2x2-mixed") | (vh::Tier::Thorough, "2x2-rewrite") | (vh::Tier::Thorough, "2x2-excepted") | (vh::Tier::Thorough, "2x2-cosmetic") | (vh::Tier::Thorough, "2x2-csp") | (vh::Tier::Thorough, "2x2-redirect") => 4,
             (vh::Tier::Thorough, _) => 3,
         };
         for b in 0..=max_bound {
@@ -814,7 +823,7 @@ fn sync_main(tier: vh::Tier) -> i32 {
     }
     ctx.finish(
         "model_checking",
-        "(a) every interleaving of the thread plans (2x2, 3x1, 3x2, 2x3, 2x2-mixed, 2x2-rewrite, 2x2-excepted, 2x2-cosmetic, 2x2-csp: real OS threads on one shared real engine of the Sync build, regex-heavy rules, always-discard policy) with at most k preemptions, k = 0..bound, explored by stateless DFS; scheduling points at the real regex-manager lock (try_lock decides blocking) and inside the critical section; oracle per schedule: every answer equals the single-thread answer of a fresh engine, no panic, no deadlock, lock not poisoned; (b) one engine per list of C01's quick universe (+ cosmetic rules): all answers hashed by the single-thread build and recomputed by the thread-safe build; states = distinct traces + engines, transitions = scheduling points + queries; non-trivial = distinct traces",
+        "(a) every interleaving of the thread plans (2x2, 3x1, 3x2, 2x3, 2x2-mixed, 2x2-rewrite, 2x2-excepted, 2x2-cosmetic, 2x2-csp, 2x2-redirect: real OS threads on one shared real engine of the Sync build, regex-heavy rules, always-discard policy) with at most k preemptions, k = 0..bound, explored by stateless DFS; scheduling points at the real regex-manager lock (try_lock decides blocking) and inside the critical section; oracle per schedule: every answer equals the single-thread answer of a fresh engine, no panic, no deadlock, lock not poisoned; (b) one engine per list of C01's quick universe (+ cosmetic rules): all answers hashed by the single-thread build and recomputed by the thread-safe build; states = distinct traces + engines, transitions = scheduling points + queries; non-trivial = distinct traces",
         &[
             "no preemption between two scheduling points: sound if no shared mutable state is touched outside the lock (checked separately, non-exhaustively, by a free-running Miri pass in the thorough tier)",
             "weak-memory behaviours below the mutex are not modelled",
